@@ -46,6 +46,20 @@ def gather(chk):
         items.append(("c%d" % n, "binding", P.binding_doc([p])[0], p)); n += 1
     for p in hnd:
         items.append(("c%d" % n, "handler", P.handler_doc([p]), p)); n += 1
+    # bodies that yield no value on any path (handler bodies) bound to properties, incl. one of the most permissive type (QVariant): if such
+    # a binding is ever accepted, its function must still return a value on every path
+    def uses_params(h):
+        names = {x["n"] for x in h.get("params", [])}
+        txt = json.dumps(h["body"])
+        return any('"k": "lv", "n": "%s"' % nm in txt or '"n": "%s", "k": "lv"' % nm in txt for nm in names)
+    for p in [h for h in hnd if not uses_params(h)][:150]:
+        for prop in ("vval", "ival"):
+            q = {"prop": prop, "body": p["body"]}
+            items.append(("c%d" % n, "binding", P.binding_doc([q])[0], q)); n += 1
+    for prop, text in (("vval", "a.poke()"), ("vval", "a.vval"), ("vval", "{ if (a.flag) { return a.vval } b.vval }"), ("vval", "{ if (a.flag) { return } a.vval }"),
+                       ("vval", "{ switch (a.ival) { case 0: return a.vval; default: break } }"), ("vval", "console.log(a.text)"), ("ival", "a.poke()")):
+        qml = P.HEAD + "  TSource { id: t0\n    %s: %s\n  }\n}\n" % (prop, text)
+        items.append(("c%d" % n, "binding", qml, {"prop": prop, "text": text})); n += 1
     return items
 
 
